@@ -24,7 +24,7 @@ pub fn cfg_for(f: Flavour) -> JGenCfg {
     Flavour::Faults => JGenCfg { faults: 28, locker: 30, stale_meta: 25, ..Default::default() },
     Flavour::Checksums => JGenCfg { faults: 10, locker: 100, https_imports: 30, ..Default::default() },
     Flavour::Mapping => JGenCfg { faults: 3, locker: 20, weird_exports: 15, stale_meta: 10, ..Default::default() },
-    Flavour::Versions => JGenCfg { faults: 3, locker: 10, prefer_cached: 50, stale_meta: 30, weird_exports: 2, ..Default::default() },
+    Flavour::Versions => JGenCfg { faults: 3, locker: 10, prefer_cached: 50, stale_meta: 30, weird_exports: 2, seeds: 45, ..Default::default() },
     Flavour::Mixed | Flavour::Closure => JGenCfg::default(),
   }
 }
@@ -45,7 +45,7 @@ pub fn describe(c: &JCase) -> serde_json::Value {
     serde_json::Value::Object(o)
   };
   serde_json::json!({
-    "roots": c.roots, "prefer_cached_jsr_versions": c.prefer_cached, "lock_pkg": c.lock_pkg, "lock_remote": c.lock_remote,
+    "roots": c.roots, "prefer_cached_jsr_versions": c.prefer_cached, "lock_pkg": c.lock_pkg, "lock_remote": c.lock_remote, "lockfile_package_specifiers": c.seed,
     "notes": c.notes, "use": show(&c.world.entries, false), "reload": show(&c.world.reload_entries, false),
     "only": show(&c.world.only_entries, true),
   })
@@ -56,9 +56,9 @@ pub fn case_of(c: &JCase, extra_direct: Vec<String>, extra_dist: Vec<(String, u6
   case_of_judged(c, extra_direct, extra_dist, false)
 }
 
-/// `c01_judge`: the model also judges that no entry is unreachable from the roots; the observation
-/// carries the expected verdict.
-pub fn case_of_judged(c: &JCase, extra_direct: Vec<String>, extra_dist: Vec<(String, u64)>, c01_judge: bool) -> Case {
+/// `judged`: the model also judges the graph (C01: no entry is unreachable from the roots; C06: the
+/// lockfile-seeded selections are honoured); the observation carries the expected verdict.
+pub fn case_of_judged(c: &JCase, extra_direct: Vec<String>, extra_dist: Vec<(String, u64)>, judged: bool) -> Case {
   let mut built = real_jbuild(c);
   let mut direct = extra_direct;
   // C03's own observations on the real result
@@ -86,11 +86,12 @@ pub fn case_of_judged(c: &JCase, extra_direct: Vec<String>, extra_dist: Vec<(Str
   dist.push((format!("jsr_modules_{}", n_mod.min(8)), 1));
   dist.push((format!("jsr_restarted_{}", restarted), 1));
   dist.push((format!("jsr_locker_{}", c.lock_pkg.is_some()), 1));
+  dist.push((format!("jsr_lockfile_seeds_{}", c.seed.len().min(3)), 1));
   dist.push((format!("jsr_prefer_cached_{}", c.prefer_cached), 1));
   dist.push((format!("jsr_content_loads_{}", built.log.iter().filter(|l| l.cache_setting == "only" && !l.specifier.ends_with("meta.json")).count().min(4)), 1));
   Case {
     input: Sx::L(vec![Sx::A(JSRTAG), a.world_sx.clone(), Sx::L(vec![Sx::b(c.prefer_cached)]), Sx::atoms(c.roots.iter().map(|r| a.it.spec(r)))]),
-    obs: if c01_judge { Sx::L(vec![obs, Sx::judge(true)]) } else { Sx::L(vec![obs]) },
+    obs: if judged { Sx::L(vec![obs, Sx::judge(true)]) } else { Sx::L(vec![obs]) },
     meta: serde_json::json!({"stream": "registry", "world": describe(c), "graph": serde_json::from_str::<serde_json::Value>(&json).unwrap_or(serde_json::Value::Null),
       "loader_calls": built.log.iter().map(|l| format!("{} {} {:?}", l.cache_setting, l.specifier, l.checksum)).collect::<Vec<_>>(),
       "locker_pkg_sets": built.lock_sets, "locker_remote_sets": built.remote_sets}),
@@ -103,7 +104,7 @@ pub fn case_of_judged(c: &JCase, extra_direct: Vec<String>, extra_dist: Vec<(Str
 pub fn gen_case(seed: u64, k: u64, f: Flavour) -> Case {
   let mut rng = Rng::for_case(seed ^ 0x4a53_5200, k);
   let c = gen_jcase(&mut rng, &cfg_for(f));
-  case_of_judged(&c, vec![], vec![], f == Flavour::Closure)
+  case_of_judged(&c, vec![], vec![], f == Flavour::Closure || f == Flavour::Versions)
 }
 
 pub fn run(cfg: &RunCfg) {
@@ -123,7 +124,12 @@ pub fn flavour_of(name: &str) -> Flavour {
 
 pub fn dump(flavour: &str, seed: u64, k: u64) {
   let mut rng = Rng::for_case(seed ^ 0x4a53_5200, k);
-  let c = gen_jcase(&mut rng, &cfg_for(flavour_of(flavour)));
+  let c = if flavour == "lockseed" { lockseed_case() } else { gen_jcase(&mut rng, &cfg_for(flavour_of(flavour))) };
+  if std::env::var("DGVERIF_BUILD").is_ok() {
+    let case = case_of_judged(&c, vec![], vec![], true);
+    println!("{}\n{}", case.input.to_string(), case.obs.to_string());
+    return;
+  }
   if std::env::var("DGVERIF_MODEL_INPUT").is_ok() {
     let mut a = abs_jworld(&c, &BTreeSet::new());
     let input = Sx::L(vec![Sx::A(JSRTAG), a.world_sx.clone(), Sx::L(vec![Sx::b(c.prefer_cached)]), Sx::atoms(c.roots.iter().map(|r| a.it.spec(r)))]);
@@ -165,6 +171,7 @@ pub fn gen_case_scheduled(seed: u64, k: u64, tier: Tier) -> Case {
     let loader = GatedLoader::new(inner);
     let mut locker = new_locker(&c);
     let mut graph = deno_graph::ModuleGraph::new(deno_graph::GraphKind::All);
+    fill_seeds(&mut graph, &c);
     let roots: Vec<deno_graph::ModuleSpecifier> = c.roots.iter().map(|r| deno_graph::ModuleSpecifier::parse(r).unwrap()).collect();
     let exec = crate::world::InlineExecutor;
     let done = {
